@@ -70,6 +70,10 @@ class Ctx(object):
         self.faults = {}
         self.probes = {}
         self.urlopen_calls = 0
+        # the simulated wall clock (time.time is interposed): it starts at a date drawn from the run's seed and moves on by a
+        # second and a bit on EVERY reading, so two readings never agree - a writer whose bytes depend on the clock shows
+        self.clock_base = 1.4e9 + (mix(int(cfg.get("order_seed", 0)), "clock") % 300000000)
+        self.clock_reads = 0
         self.net = simnet.Peer(self)
         self.known_hits = {}
         self.dump_hashes = []
@@ -351,6 +355,21 @@ def interpose():
     _interposed.append(True)
 
 
+def _sim_time():
+    n = CTX.clock_reads
+    CTX.clock_reads = n + 1
+    CTX.probe("clock.read_by_code_under_test")
+    return CTX.clock_base + 1.37 * n
+
+
+def interpose_clock():
+    import time as _t
+    if getattr(_t.time, "_simfw", False):
+        return
+    _sim_time._simfw = True
+    _t.time = _sim_time
+
+
 def _guard_urlopen(path):
     CTX.urlopen_calls += 1
     raise HarnessError("network seam reached: %r" % (path,))
@@ -397,6 +416,7 @@ def install(repo=None):
     for name in SET_MODULES:
         mods[name].set = SimSet
     simnet.interpose()
+    interpose_clock()
     # validators: every class defined in a productmd module that derives from MetadataBase
     base = mods["common"].MetadataBase
     nwrapped = 0
